@@ -234,6 +234,10 @@ _METHODS = {
     'all': _reduce('all'), 'item': _reduce('item'),
     'unsqueeze': _unsqueeze, 'squeeze': _squeeze, 'expand_as': _expand_as,
     'is_contiguous': lambda libs, t: t.contig,
+    'chunk': lambda libs, t, chunks, dim=0: libs._torch_chunk(t, chunks, dim),
+    'split': lambda libs, t, size, dim=0: libs._torch_split(t, size, dim),
+    'narrow': lambda libs, t, dim, start, length: libs._torch_narrow(t, dim, start, length),
+    'new_empty': lambda libs, t, *size, **k: _new_zeros(libs, t, *size, **k),
     'type_as': lambda libs, t, o: _cast(o.dtype)(libs, t),
     'flip': lambda libs, t, *dims: libs._torch_flip(t, _shape_args(dims)),
     'roll': lambda libs, t, shifts, dims=None: libs._torch_roll(t, shifts, dims),
